@@ -297,10 +297,13 @@ func (r *Reader) parseBenchmarkLine(line []byte) *SyntaxError {
 		}
 		unit := r.intern(f)
 
-		// Tidy the value.
+		// Tidy the value. Whether to store the tidied pair is decided
+		// by the unit alone, so that every value of a metric (including
+		// 0 and ±Inf, which scaling does not change) is reported under
+		// the same unit.
 		tidyVal, tidyUnit := benchunit.Tidy(val, unit)
 		var v Value
-		if tidyVal == val {
+		if tidyUnit == unit {
 			v = Value{Value: val, Unit: unit}
 		} else {
 			v = Value{Value: tidyVal, Unit: tidyUnit, OrigValue: val, OrigUnit: unit}
